@@ -27,8 +27,16 @@ void put_range(int j, mixed v, int mode) {
 }
 void cb(mixed a, mixed b) { }
 void newfp(int i, int j) { set(j, (: cb, get(i) :)); }
-void callout(int i) { call_out("cb", 1000, get(i)); }
+int h1, h2;    // handles of the (at most two) pending call_outs
+void callout(int i) { int h = call_out("cb", 1000, get(i)); if (!h1 || find_call_out(h1) == -1) h1 = h; else h2 = h; }
 void rmco() { remove_call_out("cb"); }
+void rmco_h() {   // remove one pending call_out by its handle
+  if (h1 && find_call_out(h1) != -1) { remove_call_out(h1); h1 = 0; }
+  else if (h2 && find_call_out(h2) != -1) { remove_call_out(h2); h2 = 0; }
+}
+// the user's pending input_to holds g[i]: as carry-over argument (callback by name) or as bound argument of a function pointer
+void icb(mixed a, mixed b) { if (a == "err" || b == "err") zero = 1 / zero; }
+void inp(string form, int i) { if (form == "fp") input_to((: icb, get(i) :)); else input_to("icb", 0, get(i)); }
 void dest() { destruct(this_object()); }
 
 mixed thrower(mixed a, mixed b, mixed c) { return ({ a, b, c }); }
